@@ -4,9 +4,9 @@
     2. C04 monitor (Model/Percolator.lean) on the protocol-relevant projection of the events
     3. history oracles at `quiesce` / `audit …` / snapshot API calls (C01, C02, C03, C05, C06)
 -/
-import ClientGoVerif.Model.MvccRpc
+import ClientGoVerif.Model.MvccFull
 import ClientGoVerif.Model.Percolator
-open CGV CGV.Mvcc CGV.MvccProto CGV.MvccRpc CGV.Perc
+open CGV CGV.Mvcc CGV.MvccProto CGV.MvccRpc CGV.MvccFull CGV.Perc
 
 /-- one read of the API-level history -/
 structure ReadRec where
@@ -24,6 +24,7 @@ structure Pending where
 
 structure JState where
   store : Store := {}
+  full : Option FStore := none                -- profile `full`: the store the client ran against is the Lean model itself
   mon : MState := {}
   curTxn : List (String × Nat) := []          -- client ↦ start ts of its open transaction
   pending : List Pending := []
@@ -209,6 +210,8 @@ def firstSome (l : List (Option String)) : Option String := l.findSome? id
 def step (j : JState) (line : String) : JState × String :=
   match words line with
   | ["reset"] => ({}, "ok")
+  | ["reset", "mock"] => ({}, "ok")
+  | ["reset", "full"] => ({ full := some {} }, "ok")
   | ["tso", client, ts] =>
     match ts.toNat? with
     | some ts =>
@@ -231,11 +234,15 @@ def step (j : JState) (line : String) : JState × String :=
       let (cmd, ans) := splitArrow rest
       match hx rs, hx re with
       | some rs, some re =>
-        match rpcExec j.store rs re cmd with
+        let stepped : Option (Store × Option FStore × String) :=
+          match j.full with
+          | some f => (frpcExec f rs re cmd).map fun (f', a) => (f'.base, some f', a)
+          | none => (rpcExec j.store rs re cmd).map fun (s', a) => (s', none, a)
+        match stepped with
         | none => (j, "MISMATCH malformed-event")
-        | some (s', modelAns) =>
+        | some (s', f', modelAns) =>
           let rec_ := " ".intercalate ans
-          let j1 := { j with store := s' }
+          let j1 := { j with store := s', full := f' }
           let lostCommit : List Nat := if kind == "lost" then commitPointOf cmd else []
           let lossy : List Nat := if kind == "lost" then (startTSOf cmd).toList else []
           let j1 := { j1 with commitPointLost := j1.commitPointLost ++ lostCommit, lossy := j1.lossy ++ lossy }
